@@ -43,6 +43,12 @@ CORPUS = [
          ["failover", 1, [True, True]]]),
     # failed placement migrated onto its own worker
     (5, [["register", 1, 4, 10, 0], ["plan_deploy", [[1, 1, 1]]], ["commit_deploy", 0, [False]], ["migrate", 16, 0, 1, True]]),
+    # two groups share a pipeline name on one worker, one copy Running and one Failed; the Failed copy is migrated away
+    # (plan + commit, and the one-step path): the worker must keep listing the Running copy
+    (5, [["register", 1, 4, 10, 0], ["register", 2, 4, 10, 0], ["plan_deploy", [[1, 1, 1]]], ["commit_deploy", 0, [True]],
+         ["plan_deploy", [[1, 1, 1]]], ["commit_deploy", 1, [False]], ["plan_migrate", 16, 1, 2], ["commit_migrate", 2, True]]),
+    (5, [["register", 1, 4, 10, 0], ["register", 2, 4, 10, 0], ["plan_deploy", [[1, 1, 1]]], ["commit_deploy", 0, [True]],
+         ["plan_deploy", [[1, 1, 1]]], ["commit_deploy", 1, [False]], ["migrate", 16, 1, 2, True]]),
 ]
 
 # witnesses of the recorded finding classes (replayed on every run; each must still fail in its class)
@@ -105,7 +111,7 @@ def gen_cases(run):
     run.extra["exhaustive_interleavings"] = len(inter)
     n = 500 if run.tier == "quick" else 12000
     for i in range(n):
-        g = C.Gen(rng.fork(), known_ops=(i % 6 == 5), dishonest=(i % 10 == 9), interleave=(i % 4 != 3))
+        g = C.Gen(rng.fork(), known_ops=(i % 6 == 5), dishonest=(i % 10 == 9), interleave=(i % 4 != 3), crowded=(i % 5 == 2))
         cases.append((rng.range(2, 6), g.history(rng.range(4, 14))))
     return cases
 
